@@ -157,8 +157,12 @@ def make_table(spec):
             names = [n + "1" for n in names]
         return [Par(n, kind[k]) for n, k in zip(names, sig)]
 
+    def rt(name):
+        # a name made at run time (not the interned literal) when the spec says so
+        return "".join([ch for ch in name]) if spec.get("fresh_names") else name
+
     def ctor(name):
-        return GD(name, params(name), ideal_unitary=U[name])
+        return GD(rt(name), params(name), ideal_unitary=U[name])
 
     how = spec["how"]
     T = {}
@@ -185,12 +189,12 @@ def make_table(spec):
         T["N"] = ctor("N")
         T["RG"] = T["N"].copy(name="RG", parameters=params("RG"))
     if spec.get("busy_copy"):
-        T["prepare_all"] = L["BusyGateDefinition"]("prepare_all", [])
-        T["measure_all"] = T["prepare_all"].copy(name="measure_all")
-        T["sync"] = T["measure_all"].copy(name="sync", parameters=[])
+        T["prepare_all"] = L["BusyGateDefinition"](rt("prepare_all"), [])
+        T["measure_all"] = T["prepare_all"].copy(name=rt("measure_all"))
+        T["sync"] = T["measure_all"].copy(name=rt("sync"), parameters=[])
     else:
         for n in ("prepare_all", "measure_all", "sync"):
-            T[n] = L["BusyGateDefinition"](n, [])
+            T[n] = L["BusyGateDefinition"](rt(n), [])
     base = {n: T[n] for n in BASE_SIG}
     sub = {n: T[n] for n in STRETCHED}
     st = spec["stretch"]
@@ -460,6 +464,30 @@ def materialise(sx, forms):
     return go(sx)
 
 
+def text_ok(sx):
+    """can the Jaqal TEXT say this S-expression?  (no block directly inside a block of the same kind, no loop directly inside
+    a parallel block; the builder accepts more shapes than the grammar)"""
+    def go(s, parent):
+        c = s[0]
+        if c == "gate":
+            return True
+        if c == "loop":
+            return parent != "parallel_block" and s[2][0] == "sequential_block" and go(s[2], "loop")
+        if c in ("sequential_block", "parallel_block"):
+            return parent != c and all(go(x, c) for x in s[1:])
+        if c == "subcircuit_block":
+            return parent == "top" and all(go(x, "sequential_block") for x in s[2:])
+        return False
+
+    for it in sx[1:]:
+        if it[0] == "macro":
+            if not all(go(x, it[-1][0]) for x in it[-1][1:]):
+                return False
+        elif it[0] not in ("let", "register", "map") and not go(it, "top"):
+            return False
+    return True
+
+
 def render(sx):
     def num(v):
         return repr(v)
@@ -590,12 +618,21 @@ class Gen:
             self.forms[f].append(nm)
             self.forms[f].append(nm)
         self.macros = {}  # name -> param kinds string
+        self.macro_params = {}
         self.make_macros()
         self.make_body()
 
     # ---- expressions
+    _avoid = ()
+    _dup = False
+
     def top_qubit(self, allowed):
-        f = self.rng.choice(sorted(allowed))
+        al = sorted(set(allowed) - set(self._avoid))
+        if not al:
+            self._dup = True
+            al = sorted(allowed)
+        f = self.rng.choice(al)
+        self._avoid = set(self._avoid) | {f}
         return self.rng.choice(self.forms[f])
 
     def classical(self, k):
@@ -611,8 +648,31 @@ class Gen:
         """one gate / macro call; qubit() -> a qubit expression valid in the scope"""
         r = self.rng
         t = r.random()
+        drawn = []
+        _q = qubit
+        self._avoid = set()
+        self._dup = False
+
+        def wrapped():
+            for _ in range(6):
+                e = _q()
+                if e not in drawn:
+                    break
+            else:
+                self._dup = True
+            drawn.append(e)
+            return e
+
+        g = self.gate_inner(wrapped, depth, allow_busy, t)
+        if self._dup and drawn:
+            # the scope does not offer enough different qubits for this gate
+            return ["gate", r.choice(ONE), drawn[0]]
+        return g
+
+    def gate_inner(self, qubit, depth, allow_busy, t):
+        r = self.rng
         if self.macros and t < 0.3:
-            nm = r.choice(list(self.macros))
+            nm = r.choice(list(self.macros) + list(self.macros)[-1:] * 2)
             args = []
             for k in self.macros[nm]:
                 if k == "q":
@@ -620,7 +680,7 @@ class Gen:
                 elif k == "r":
                     c = self.reg_arg(2)
                     if c is None:
-                        return self.gate(qubit, depth, allow_busy) if not self.macros_need_reg() else ["gate", "X", qubit()]
+                        return ["gate", "X", qubit()]
                     args.append(c)
                 else:
                     args.append(self.int_arg())
@@ -661,16 +721,27 @@ class Gen:
         for nm in pool[: r.choice([0, 1, 2, 2, 3])]:
             ppool = [x for x in PARAM_NAMES if x not in self.taken]
             np_ = r.choice([1, 2, 2, 3])
-            if prev_params and r.random() < 0.6:
-                # the previous macro's parameter names, permuted or shifted
-                ps = list(prev_params)
-                if r.random() < 0.5:
-                    ps = ps[::-1] if len(ps) > 1 else ps
+            callee = None
+            if self.macros and r.random() < 0.65:
+                # the parameter names of an earlier macro (which this one will call), permuted or shifted; each name keeps
+                # the kind it has there so that it can be handed over crosswise
+                callee = r.choice(list(self.macros))
+                cps = self.macro_params[callee]
+                kmap = dict(zip(cps, self.macros[callee]))
+                ps = list(cps)
+                t = r.random()
+                if t < 0.4 and len(ps) > 1:
+                    ps = ps[::-1]
+                elif t < 0.6 and len(ps) > 1:
+                    r.shuffle(ps)
                 else:
-                    ps = [r.choice([x for x in ppool if x not in ps])] + ps[:-1]
+                    new_name = r.choice([x for x in ppool if x not in ps])
+                    kmap[new_name] = "q"
+                    ps = ([new_name] + ps[:-1]) if r.random() < 0.5 else ([new_name] + ps)
+                kinds = "".join(kmap[x] for x in ps)
             else:
                 ps = r.sample(ppool, np_)
-            kinds = "".join(r.choice("qqqqri") for _ in ps)
+                kinds = "".join(r.choice("qqqqqqri") for _ in ps)
             if "q" not in kinds and "r" not in kinds:
                 kinds = "q" + kinds[1:]
             qs = [p for p, k in zip(ps, kinds) if k == "q"]
@@ -693,11 +764,32 @@ class Gen:
             self.classical = lambda k, _ns=ns, _o=save[2]: r.choice(_ns) if _ns and r.random() < 0.5 else _o(k)
             try:
                 body = self.block(qubit, depth=1, par=r.random() < 0.25, maxlen=3)
+                if self.macros and (callee or r.random() < 0.5):
+                    # a call of an earlier macro whose arguments are this macro's own parameters, crosswise where possible
+                    callee = callee or r.choice(list(self.macros))
+                    own = {"q": list(qs), "r": list(rs), "i": list(ns)}
+                    for l in own.values():
+                        r.shuffle(l)
+                    args = []
+                    for cp, k in zip(self.macro_params[callee], self.macros[callee]):
+                        cand = [x for x in own[k] if x != cp] or own[k]
+                        if cand and r.random() < 0.9:
+                            x = cand[0]
+                            own[k].remove(x)
+                            args.append(x)
+                        elif k == "q":
+                            args.append(self.top_qubit(range(self.size)))
+                        elif k == "r":
+                            args.append(save[0](2))
+                        else:
+                            args.append(save[1]())
+                    if None not in args:
+                        body.insert(r.randrange(1, len(body) + 1), ["gate", callee] + args)
             finally:
                 self.reg_arg, self.int_arg, self.classical = save
             self.items.append(["macro", nm] + ps + [body])
             self.macros[nm] = kinds
-            prev_params = ps
+            self.macro_params[nm] = ps
 
     def block(self, qubit, depth, par, maxlen=4, allowed=None):
         r = self.rng
@@ -821,7 +913,7 @@ def sub_statements(sx):
 def gen_case(rng, thorough):
     r = rng
     table = {"how": r.choice(TABLES), "stretch": r.choice(STRETCH), "order": r.randrange(1000),
-             "idle_copy": r.random() < 0.5, "busy_copy": r.random() < 0.5}
+             "idle_copy": r.random() < 0.5, "busy_copy": r.random() < 0.5, "fresh_names": r.random() < 0.5}
     forms = {"fresh": r.random() < 0.7, "seq": r.choice(["tuple", "list", "mixed"]), "share": r.random() < 0.5, "num": r.choice(NUMFORMS)}
     nprog = r.choice([2, 3, 3, 4] if thorough else [2, 2, 3])
     kinds = [r.choice(["valid", "collide", "collide", "broken", "broken2"]) for _ in range(nprog - 1)] + ["valid"]
@@ -923,6 +1015,9 @@ def eval_case(case):
         sx = progs[i]["sx"]
         if twin:
             sx = permute(sx, case["perm"])
+        if route == "text" and not text_ok(sx):
+            route = "sx"
+            bump("text_route_not_expressible")
         if route == "text":
             txt = render(sx)
             if case["forms"]["fresh"]:
@@ -973,6 +1068,11 @@ def eval_case(case):
                 return plain(L["get_used_qubit_indices"](x))
             res = guarded(f)
             if not judged:
+                continue
+            if '"subcircuit_block"' in json.dumps(progs[i]["sx"]) and "S" not in st.get("passes", ""):
+                # whether the implied prepare / measure of a subcircuit block count before expand_subcircuits is not fixed
+                # by the property text: the call is made (history), not judged
+                bump("used_unjudged_subcircuit")
                 continue
             ref, u, col = refs[i]
             exp = {(ref_reg_name(progs[i]["sx"]), k) for k in u}
